@@ -1,4 +1,5 @@
 import GoPlugin.Props.C11
+import GoPlugin.Props.StdioConn
 import GoPlugin.Generated.Facts
 /-
 C11 instantiated at the facts extracted from the current source (tie T-A):
@@ -63,5 +64,13 @@ theorem holds_per_stream_exact_grpc_timed (connEnd : Nat)
     (hlive : ∀ tm ∈ tsel, tm.1 < connEnd) :
     grpcDeliverTimed Facts.stdio connEnd tsel = ⟨outWrites.flatten, errWrites.flatten⟩ :=
   per_stream_exact_grpc_timed _ facts_good.1 connEnd _ _ _ _ tsel hout herr hsel hlive
+
+theorem stdio_conn_good : Facts.stdioConn.Good := by decide
+
+/-- net/rpc, any history of host connections made and dropped: nothing the plugin writes is lost to a connection that has
+gone (the repaired defect D13) -/
+theorem holds_nothing_lost_across_connections (es : List StdioConn.Ev) (s : StdioConn.State)
+    (hr : StdioConn.runFrom Facts.stdioConn StdioConn.init es = some s) : s.lost = [] ∧ s.taken ++ s.pending = s.written :=
+  Props.StdioConn.nothing_lost_across_connections _ stdio_conn_good es s hr
 
 end GoPlugin.Instance.C11
